@@ -284,6 +284,7 @@ type WorkerOut struct {
 	HarnessErrs []string          `json:"harness_errors"`
 	WallS       float64           `json:"wall_s"`
 	Draws       int               `json:"draws"`
+	Hashes      []string          `json:"hashes,omitempty"`
 	SweepRuns   int               `json:"sweep_runs"`
 	SweepTotal  int               `json:"sweep_total"`
 }
@@ -302,6 +303,8 @@ type WorkerCfg struct {
 	MaxRuns   int
 	ShrinkFor time.Duration
 	MaxViol   int
+	Hashes    bool // record "run seed:trace hash:tape length:violation" for every run (determinism self-test)
+	NoSweep   bool
 }
 
 type sample struct {
@@ -377,7 +380,7 @@ func Worker(sc Scenario, cfg WorkerCfg) WorkerOut {
 	seenViol := map[string]bool{}
 	var sFree, sFault, sLong *sample
 	var sweep [][]uint32
-	if f := Enumerations[cfg.Scenario]; f != nil {
+	if f := Enumerations[cfg.Scenario]; f != nil && !cfg.NoSweep {
 		all := f()
 		// the sweep is split over the workers
 		for i, t := range all {
@@ -405,6 +408,13 @@ func Worker(sc Scenario, cfg WorkerCfg) WorkerOut {
 		}
 		out.Runs++
 		out.Draws += len(res.Tape)
+		if cfg.Hashes {
+			v := ""
+			if res.Viol != nil {
+				v = res.Viol.Sig
+			}
+			out.Hashes = append(out.Hashes, fmt.Sprintf("%d:%s:%d:%d:%s:%s", runSeed, res.TraceHash, len(res.Tape), res.Steps, v, res.Discard))
+		}
 		if len(out.Seeds) < 8 {
 			out.Seeds = append(out.Seeds, runSeed)
 		}
